@@ -249,8 +249,10 @@ def units(tier, seed):
         out.append(("toy", {"curve": "t13", "digests": [x.hex() for x in one[::4]], "encs": encs}))
         out.append(("toy", {"curve": "t23a", "digests": [x.hex() for x in one[::16] + [b"\xff\xff"]], "encs": encs}))
         out.append(("toy", {"curve": "t23b", "digests": [x.hex() for x in one[5::32]], "encs": encs}))
+        out.append(("toy", {"curve": "t17x", "digests": [x.hex() for x in one[::4]], "encs": encs}))
+        out.append(("toy", {"curve": "t31x", "digests": [x.hex() for x in one[3::32]], "encs": encs}))
     else:
-        for c in ("t13", "t23a", "t23b", "t29"):
+        for c in ("t13", "t23a", "t23b", "t29", "t17x", "t31x"):
             for part in range(4):
                 out.append(("toy", {"curve": c, "digests": [x.hex() for x in one[part::4]], "encs": encs}))
         out.append(("toy", {"curve": "t61", "digests": [x.hex() for x in one[::16]], "encs": encs}))
